@@ -148,6 +148,7 @@ StoreLv(l, v, st) ==
             ELSE [st EXCEPT !.vars = (l.n :> [t |-> U32, v |-> v]) @@ st.vars]
       [] l.k = "reg" ->
             LET key == RegKey(l) IN IF HasReg(st, key) THEN WriteReg(st, key, v) ELSE Unspec(st, "noreg")
+      [] l.k = "imm" -> [st EXCEPT !.imm = (l.l :> v) @@ st.imm]     \* the immediate is a C variable
       [] OTHER -> Unspec(st, "lvalue")
 
 EvalArgs(args, i, st, acc) ==
@@ -380,7 +381,7 @@ RECURSIVE ExprOk(_, _)
 RECURSIVE StmtOk(_, _)
 AllExprOk(es, st) == \A i \in 1..Len(es) : ExprOk(es[i], st)
 AllStmtOk(ss, st) == \A i \in 1..Len(ss) : StmtOk(ss[i], st)
-IsLvalue(e) == e.k \in {"var", "reg"}
+IsLvalue(e) == e.k \in {"var", "reg", "imm"}
 
 ExprOk(e, st) ==
     LET k == e.k IN
